@@ -33,6 +33,7 @@ typedef struct {
     volatile int      has_out;
     qthread_t        *self;
     aligned_t         ret;
+    aligned_t         go;       /* FEB word: the task sleeps in qthread_readFE(&go) until the controller hands it a call */
 } task_t;
 
 static task_t    *T[MAXT + 1];
@@ -57,16 +58,17 @@ static const char *rcname(int rc)
 static void do_op(task_t *t)
 {
     syncvar_t *v   = V[t->var];
-    uint64_t   out = SENTINEL;
-    uint64_t  *d   = t->has_dest ? &out : NULL;
+    volatile uint64_t out = SENTINEL;
+    uint64_t  *d   = t->has_dest ? (uint64_t *)&out : NULL;
     uint64_t   val = t->val;       /* lives in this task's frame while the task is blocked (writeEF keeps the pointer) */
     int        rc  = 0, has_out = 0;
 
     switch (t->op) {
-        case 0: rc = qthread_syncvar_readFF(d, v); has_out = t->has_dest; break;
-        case 1: rc = qthread_syncvar_readFF_nb(d, v); has_out = t->has_dest; break;
-        case 2: rc = qthread_syncvar_readFE(d, v); has_out = t->has_dest; break;
-        case 3: rc = qthread_syncvar_readFE_nb(d, v); has_out = t->has_dest; break;
+        /* delivered value = whatever the call stored through dest (the sentinel means nothing was stored) */
+        case 0: rc = qthread_syncvar_readFF(d, v); has_out = (out != SENTINEL); break;
+        case 1: rc = qthread_syncvar_readFF_nb(d, v); has_out = (out != SENTINEL); break;
+        case 2: rc = qthread_syncvar_readFE(d, v); has_out = (out != SENTINEL); break;
+        case 3: rc = qthread_syncvar_readFE_nb(d, v); has_out = (out != SENTINEL); break;
         case 4: rc = qthread_syncvar_writeF(v, &val); break;
         case 5: rc = qthread_syncvar_writeEF(v, &val); break;
         case 6: rc = qthread_syncvar_writeEF_nb(v, &val); break;
@@ -89,7 +91,8 @@ static aligned_t task_fn(void *arg)
     t->self    = qthread_internal_self();
     t->started = 1;
     for (;;) {
-        while (t->cmd_seq == seen && !t->quit) qthread_yield();
+        aligned_t c;
+        qthread_readFE(&c, &t->go);     /* idle tasks are blocked (FEB subsystem), not spinning: keeps the ready queues short */
         if (t->quit) break;
         seen = t->cmd_seq;
         do_op(t);
@@ -159,9 +162,10 @@ static unsigned wait_quiescent(void)
             if (T[i]->cmd_seq != T[i]->done_seq && !enqueued(i)) bad |= 1u << i;
         if (!bad) return 0;
         qthread_yield();
-        if ((++spins & 0x3ff) == 0) {
+        ++spins;
+        if ((spins & 0x3f) == 0) {
             if (now() - t0 > stuck_after) return bad;
-            if (spins > 100000) usleep(200);
+            if (spins > 2000) usleep(100);
         }
     }
 }
@@ -210,7 +214,10 @@ static void stuck(unsigned bad)
 
 static void end_script(void)
 {
-    for (int i = 0; i < ntasks; i++) T[i]->quit = 1;
+    for (int i = 0; i < ntasks; i++) {
+        T[i]->quit = 1;
+        if (T[i]->cmd_seq == T[i]->done_seq) qthread_writeF_const(&T[i]->go, 1);
+    }
     double t0 = now();
     for (;;) {
         int all = 1;
@@ -243,7 +250,7 @@ static aligned_t controller(void *unused)
                 *V[i] = SYNCVAR_INITIALIZER;
             }
             nvars = nv;
-            for (int i = 0; i <= nt; i++) { T[i] = calloc(1, sizeof(task_t)); }
+            for (int i = 0; i <= nt; i++) { T[i] = calloc(1, sizeof(task_t)); qthread_empty(&T[i]->go); }
             ntasks = nt;
             for (int i = 0; i < nt; i++) qthread_fork_to(task_fn, T[i], &T[i]->ret, i % qthread_num_shepherds());
             double t0 = now();
@@ -278,8 +285,9 @@ static aligned_t controller(void *unused)
                 /* the controller may only issue calls that cannot block (the generator guarantees it) */
                 do_op(T[t]);
             } else {
-                MACHINE_FENCE;
                 T[t]->cmd_seq++;
+                MACHINE_FENCE;
+                qthread_writeF_const(&T[t]->go, 1);
             }
             unsigned bad = wait_quiescent();
             if (bad) stuck(bad);
